@@ -31,7 +31,7 @@ CFGCLS = 'xdoctest.doctest_example.DoctestConfig'
 
 
 def run(ctx):
-    for fn in (r1_one_collector, r2_one_option_table, r3_record_iff_raise, r4_skip_predicates, r5_disabled):
+    for fn in (r1_one_collector, r2_one_option_table, r3_record_iff_raise, r4_skip_predicates, r5_disabled, r5b_disable_marker_anchored):
         ctx.rep.rule(fn, ctx)
 
 
@@ -316,6 +316,13 @@ def r5_disabled(ctx):
     calls = [c for c in walk_scope(fdm.node) if isinstance(c, ast.Call) and isinstance(c.func, ast.Attribute) and c.func.attr == 'is_disabled']
     ok = bool(calls) and all(not c.args and not c.keywords for c in calls)
     rep.ob('C15.R5', ctx.loc(fdm, calls[0] if calls else fdm.node), 'native: example.is_disabled()', ok, 'native runner uses the base pattern set' if ok else 'native runner does not consult is_disabled()', nontrivial=False, anchor=DM)
+
+
+# ---------------------------------------------------------------------------
+def r5b_disable_marker_anchored(ctx):
+    """the set of force-disabled doctests (skipped by pytest, omitted natively) is decided by the first line only"""
+    from .c10 import disable_marker_anchored
+    disable_marker_anchored(ctx, 'C15.R5b')
 
 
 # ---------------------------------------------------------------------------
